@@ -294,9 +294,15 @@ def run(tier: str) -> int:
         if len(classes) >= 3:
             ch.nontrivial(str(classes) + str(accesses))
         stop = False
+        conflict_seen = False
         for k, (i, inst, mrep) in enumerate(zip(accesses, on_instance, rep["out"])):
             try:
-                media = (objs[i]() if inst else objs[i]).media
+                import warnings as _w
+                with _w.catch_warnings(record=True) as _caught:
+                    _w.simplefilter("always")
+                    media = (objs[i]() if inst else objs[i]).media
+                    _ = media._css, media._js
+                conflict_seen = conflict_seen or any("MediaOrderConflict" in type(x.message).__name__ for x in _caught)
             except Exception as e:
                 ch.violation("impl-violates-spec", "hierarchy", shown, impl=f"{type(e).__name__}: {e}", spec="accessing .media raised")
                 stop = True
@@ -321,7 +327,15 @@ def run(tier: str) -> int:
                     break
             else:
                 oc = order_consistent(classes, got, sorted(contributing(classes, i)))
-                if oc:
+                if oc and region:
+                    # the files happen to be all there, but a base that the letter of the property selects was not merged
+                    # (listed finding): its declared order is not honoured
+                    ch.known_hit("inherited-extend-drops-base", {"case": shown, "class": i, "impl": got, "why": oc})
+                elif oc and conflict_seen:
+                    # the mechanism of the listed finding was observed: Django reported an order conflict in one of the
+                    # library's intermediate (flattened) merges although the declared lists are mutually consistent
+                    ch.known_hit("media-order-first-occurrence", {"case": shown, "class": i, "impl": got, "why": oc})
+                elif oc:
                     ch.violation("impl-violates-spec", "hierarchy", dict(shown, at_access=k, cls=i), impl=got, spec="media_order_consistent: " + oc)
                     stop = True
                     break
